@@ -133,7 +133,7 @@ def run_property(prop, tier, seed, only=None, dump=None):
     bounded = [b for b in U.BOUNDED if prop in b.props]
     if only:
         units = [u for u in units if any(o in u.key for o in only)]
-    nrand = 25 if tier == 'quick' else 400
+    nrand = 25 if tier == 'quick' else 1500
     all_obls = []          # (unit short, OblResult)
     functions = []
     violations = []        # replay paths
